@@ -23,7 +23,8 @@ EXC_KINDS = ["ValueError:m", "KeyError:k", "IndexError:", "AssertionError:", "Un
              "LatexWalkerParseError", "TypeError:t", "ZeroDivisionError:", "Exception:", "RuntimeError:",
              # append only below (replay files refer to kinds by name): unusual argument shapes
              "KeyError#int", "OSError#errno", "RuntimeError#nested", "UnicodeDecodeError#5", "Exception#bytes", "Exception#tuple",
-             "LookupError#zero", "StopIteration:", "Exception#none", "ValueError#two"]
+             "LookupError#zero", "StopIteration:", "Exception#none", "ValueError#two",
+             "ValueError#leading-newline", "RuntimeError#blank-lines", "Exception#spaces"]
 
 
 def make_exc(kind):
@@ -40,6 +41,9 @@ def make_exc(kind):
         "LookupError#zero": lambda: LookupError(0),
         "Exception#none": lambda: Exception(None),
         "ValueError#two": lambda: ValueError("first", 2),
+        "ValueError#leading-newline": lambda: ValueError("\nunexpected end of input\nOpen LaTeX blocks:\n  {"),
+        "RuntimeError#blank-lines": lambda: RuntimeError("\n\n"),
+        "Exception#spaces": lambda: Exception("   "),
     }
     if kind in special:
         return special[kind]()
